@@ -35,6 +35,7 @@ var defaultPure = []string{
 	"(*url.URL).String", "url.Parse", "(*url.URL).Hostname", "(*url.URL).Port",
 	"binary.Size", "math.*", "bits.*", "rand.Read", "rand.ReadContext", "rand.Int", "rand.Intn", "rand.Uint32",
 	"(uuid.UUID).String",
+	"context.Context.Done", "context.Context.Err", "context.Context.Deadline", "context.Context.Value",
 	// interface methods of the library whose implementations are all read-only: assumed here, and each implementation
 	// is checked against "modifies nothing" by the C20 sweep
 	"dhcpv6.longStringer.LongString", "(*bytes.Buffer).String", "(*bytes.Buffer).Len", "(*bytes.Buffer).WriteString", "(*bytes.Buffer).Write", "(*bytes.Buffer).WriteByte",
@@ -65,11 +66,26 @@ func init() {
 	nonNilErr := func(a *Act, res ssa.Value, instr ssa.Instruction, args []string, st *State, reach string) bool {
 		g := a.g
 		n := g.havoc(a.nm("err"), "Iface")
-		g.assumeIf(reach, fmt.Sprintf("(and (not (= %s nilIface)) (not (= (itag %s) 0)) (is-bOpaque (ibox %s)))", n, n, n))
+		// a newly created error value: non-nil, and none of the package-level error variables (whose identities are
+		// small numbers)
+		g.assumeIf(reach, fmt.Sprintf("(and (not (= %s nilIface)) (not (= (itag %s) 0)) (is-bOpaque (ibox %s)) (> (ubOpaque (ibox %s)) 1000000))", n, n, n, n))
 		if res != nil {
 			a.bindResults(res, []string{n})
 		}
 		return true
+	}
+	// locks, wait groups and atomics: no effect on the program's memory in the sequential reading of a function (A5: what
+	// other goroutines do under the lock is outside the claim)
+	noop := func(a *Act, res ssa.Value, instr ssa.Instruction, args []string, st *State, reach string) bool {
+		if res != nil {
+			a.havocValue(res, reach, st)
+		}
+		return true
+	}
+	for _, n := range []string{"(*sync.Mutex).Lock", "(*sync.Mutex).Unlock", "(*sync.RWMutex).Lock", "(*sync.RWMutex).Unlock", "(*sync.RWMutex).RLock", "(*sync.RWMutex).RUnlock",
+		"(*sync.WaitGroup).Add", "(*sync.WaitGroup).Done", "(*sync.WaitGroup).Wait", "atomic.LoadUint32", "atomic.CompareAndSwapUint32", "atomic.StoreUint32", "atomic.AddUint32"} {
+		externs[n] = noop
+		externWrites[n] = []string{}
 	}
 	externs["fmt.Errorf"] = nonNilErr
 	externs["errors.New"] = nonNilErr
@@ -99,6 +115,9 @@ func init() {
 		n := g.havoc(a.nm("wt_n"), "Int")
 		err := g.havoc(a.nm("wt_err"), "Iface")
 		g.assumeIf(reach, fmt.Sprintf("(and (<= 0 %s) (<= %s (sllen %s)))", n, n, p))
+		if g.topCt != nil && g.topCt.mentions(ioWordRe) {
+			g.recordSend(st, p, args[2])
+		}
 		if res != nil {
 			a.bindResults(res, []string{n, err})
 		}
